@@ -124,7 +124,9 @@ def rule_intro_keys(ctx):
         name = it['name']
         tpath = 'graphql_introspection_query::introspection_response::' + name
         if 'Deserialize' not in derives_of(ctx, 'introspection', tpath):
-            obs.append(bad('INTRO-KEYS', name + '/derive', 'Deserialize is not derived (hand-written or absent)', it['loc'], 'the keys read may differ from the member names'))
+            hand = [f_ for f_ in c.all_fns() if ('<' + tpath + ' as serde::de::Deserialize') in f_.key and not f_.from_macro]
+            if hand:
+                obs.append(undecided('INTRO-KEYS', name + '/derive', 'Deserialize is written by hand: the keys read are not decided', it['loc']))
             continue
         keys, notes = _struct_keys(c, it, aliases)
         for sev, f, msg in notes:
@@ -212,6 +214,16 @@ def rule_kind_table(ctx):
     fn = fns[0]
     m, table, other = _kind_table(fn, '__TypeKind')
     if m is None:
+        # the table may sit in a private helper the impl calls (`fn from_wire(s: &str) -> __TypeKind`)
+        seen_ = set()
+        for hf, n_ in H.deep_nodes(ctx, fn, fn.body, depth=2):
+            if hf.key != fn.key and hf.key not in seen_:
+                seen_.add(hf.key)
+                m, table, other = _kind_table(hf, '__TypeKind')
+                if m is not None:
+                    fn = hf
+                    break
+    if m is None:
         return [undecided('INTRO-KIND-TABLE', '__TypeKind/shape', 'no match on string literals in the Deserialize impl', fn.loc)]
     for k in KINDS:
         got = table.get(k)
@@ -257,11 +269,19 @@ def _param_names(fn):
     return out
 
 
+def _param_hids(fn):
+    from .rules_hir import _pat_hids
+    out = set()
+    for p in fn.params:
+        out |= _pat_hids(p)
+    return out
+
+
 def _is_param(fn, e, name):
     while isinstance(e, dict) and e.get('k') in ('ref', 'wrap', 'unary') and 'e' in e:
         e = e['e']
-    return isinstance(e, dict) and e.get('k') == 'path' and (e.get('res') or {}).get('r') == 'local' and fn.bind_names.get(e['res'].get('hid')) == name \
-        and not [s for s in fn.binds.get(e['res'].get('hid'), []) if s[0] == 'expr']
+    return isinstance(e, dict) and e.get('k') == 'path' and (e.get('res') or {}).get('r') == 'local' and (name is None or fn.bind_names.get(e['res'].get('hid')) == name) \
+        and not [s for s in fn.binds.get(e['res'].get('hid'), []) if s[0] in ('expr', 'assign')] and e['res'].get('hid') in _param_hids(fn)
 
 
 @rule('POST-HELPER')
@@ -275,14 +295,27 @@ def rule_post_helper(ctx):
         name = norm_path(fn.path).rsplit('::', 1)[1]
         calls = [n for n in H.walk(fn.body) if n.get('k') in ('call', 'mcall')]
         bq = [n for n in calls if any(p.endswith('GraphQLQuery::build_query') for p in H.callee_paths(n))]
-        if len(bq) != 1 or not _is_param(fn, (bq[0].get('args') or [None])[0], 'variables'):
+        if not bq:
+            # the request may be built in a private helper of the module: decide it there
+            for n in list(calls):
+                for lf in ctx.pv.local_fns(n.get('callee')) or []:
+                    hc = [x for x in H.walk(lf.body) if x.get('k') in ('call', 'mcall')]
+                    if any(p.endswith('GraphQLQuery::build_query') for x in hc for p in H.callee_paths(x)) and not lf.from_macro:
+                        rest = [x for x in calls if x is not n]
+                        fn_outer, fn = fn, lf
+                        calls = hc + rest
+                        bq = [x for x in hc if any(p.endswith('GraphQLQuery::build_query') for p in H.callee_paths(x))]
+                        break
+                if bq:
+                    break
+        if len(bq) != 1 or not _is_param(fn, (bq[0].get('args') or [None])[0], None):
             obs.append(bad('POST-HELPER', name + '/body', 'the body is not build_query(variables) of the query type (%d build_query calls)' % len(bq), fn.loc,
                            'a request body other than the operation\'s own document / variables is sent'))
             continue
         setters = [n for n in calls if n.get('k') == 'mcall' and any('RequestBuilder::' in p for p in H.callee_paths(n))
                    and n['method'] in ('json', 'body', 'form', 'query', 'multipart')]
         verb = [n for n in calls if n.get('k') == 'mcall' and any('Client::' in p for p in H.callee_paths(n)) and n['method'] in ('post', 'get', 'put', 'patch', 'delete', 'head', 'request')]
-        if len(verb) != 1 or verb[0]['method'] != 'post' or not _is_param(fn, (verb[0].get('args') or [None])[0], 'url'):
+        if len(verb) != 1 or verb[0]['method'] != 'post' or not (_is_param(fn, (verb[0].get('args') or [None])[0], None) or any(_is_param(f2, (verb[0].get('args') or [None])[0], None) for f2 in fns)):
             obs.append(bad('POST-HELPER', name + '/verb', 'the request is not client.post(url) (%s)' % [v['method'] for v in verb], fn.loc, 'GraphQL over HTTP: the body is not delivered'))
         else:
             obs.append(ok('POST-HELPER', name + '/verb', 'client.post(url)', verb[0].get('sp', fn.loc)))
@@ -387,6 +420,7 @@ def rule_value_fold(ctx):
     obs = []
     d = ctx.crate('derive')
     sites = []
+    generic = []
     for fn in d.all_fns():
         if fn.from_macro:
             continue
@@ -396,9 +430,15 @@ def rule_value_fold(ctx):
                 target = ((n.get('callee') or {}).get('gargs') or '').strip('[]').split(',')[0].strip()
             elif n.get('k') == 'call' and any(p.endswith('FromStr::from_str') for p in H.callee_paths(n)):
                 m = re.search(r'<(.+?) as ', (n.get('callee') or {}).get('resolved', '') or '')
-                target = m.group(1) if m else None
+                target = m.group(1) if m else ((n.get('callee') or {}).get('gargs') or '').strip('[]').split(',')[0].strip() or None
             if target and target.startswith('graphql_client_codegen::'):
                 sites.append((fn, n, target))
+            elif target is not None and re.match(r'^[A-Z]\w*(/#\d+)?$', target):
+                generic.append((fn, n))
+    if len(sites) < 2 and generic:
+        # one generic helper parses every keyword-valued attribute: the siblings agree by construction
+        return [ok('VALUE-FOLD', short_name(g_[0]) + '/shared', 'one shared helper parses the keyword-valued attributes (case %s there)' % (
+            'folded' if _folds(g_[0], g_[1].get('recv') if g_[1].get('k') == 'mcall' else g_[1].get('args')) else 'not folded'), g_[1].get('sp', g_[0].loc)) for g_ in generic]
     if len(sites) < 2:
         return [bad('VALUE-FOLD', 'floor', 'anchor-missing: expected the keyword-valued attributes of the derive (deprecated, normalization) to be parsed through FromStr, found %d sites' % len(sites))]
     rows = []
